@@ -364,6 +364,71 @@ def homeostasis_batch_shard(param, how):
     return tally
 
 
+def shape_shard(kind, cname):
+    """Shape generality: a neuron group / synapse of shape (1,2), (2,1) or (2,1,1) with batch size 2 behaves, element for element,
+    like the flat shape-(2,) component on the same (reshaped) inputs - every pair of histories of length 3, float64 as well."""
+    tally = Tally()
+    T = 3
+    hist = list(itertools.product(range(3), repeat=T))
+    hp = shifted_hp(cname) if kind == "neuron" else None
+
+    def build(shape, dtype64):
+        if kind == "neuron":
+            n = CLS[cname](shape, DT, refrac_t=2.0, batch_size=2, **hp)
+            if cname in ADAPT_THRESH + ADAPT_CURR:
+                a = get_adapt(n, cname)
+                set_adapt(n, cname, torch.full_like(a, 0.25) * (1 + torch.arange(a.shape[-1], dtype=a.dtype)))
+            n.eval()
+        else:
+            kw = dict(delay=2.0, batch_size=2)
+            n = {"delta": lambda: DeltaCurrent(shape, DT, spike_charge=1.0, **kw), "deltaplus": lambda: DeltaPlusCurrent(shape, DT, spike_charge=1.0, **kw),
+                 "exp": lambda: SingleExponentialCurrent(shape, DT, spike_charge=2.0, time_constant=2.0, **kw),
+                 "dexp": lambda: DoubleExponentialCurrent(shape, DT, spike_charge=2.0, tc_decay=4.0, tc_rise=1.0, **kw)}[cname]()
+        return n.to(torch.float64) if dtype64 else n
+
+    def observe(n, x):
+        if kind == "neuron":
+            out = n(x)
+            return {"out": out, "voltage": n.voltage, "refrac": n.refrac}
+        out = n(x)
+        sel = torch.full((*x.shape, 1), 1.0, dtype=n.current.dtype)
+        return {"out": out, "current": n.current, "current_at": n.current_at(sel), "spike_at": n.spike_at(sel)}
+
+    scale = abs(hp.get("thresh_v", hp.get("thresh_eq_v")) - hp["rest_v"]) if kind == "neuron" else None
+    for shape in ((1, 2), (2, 1), (2, 1, 1)):
+        for dtype64 in ((False, True) if kind == "neuron" else (False,)):
+            for pair in itertools.product(hist, repeat=2):
+                tally.add("evaluations")
+                case = {"component": kind, "class": cname, "shape": list(shape), "float64": dtype64, "histories": [list(h) for h in pair]}
+                try:
+                    a, b = build(shape, dtype64), build((2,), dtype64)
+                    for t in range(T):
+                        if kind == "neuron":
+                            rows = [[v * scale for v in NEURON_LETTERS[h[t]]] for h in pair]
+                            x = torch.tensor(rows, dtype=torch.float64 if dtype64 else torch.float32)
+                        else:
+                            x = torch.tensor([list(SPIKE_LETTERS[h[t]]) for h in pair], dtype=torch.bool)
+                        oa, ob = observe(a, x.reshape(2, *shape).clone()), observe(b, x.clone())
+                        bad = None
+                        for k in oa:
+                            va, vb = oa[k].reshape(2, -1), ob[k].reshape(2, -1)
+                            if va.dtype != vb.dtype or not close(va, vb):
+                                bad = (k, va, vb)
+                                break
+                        if bad:
+                            k, va, vb = bad
+                            tally.violation(f"shape-generality:{kind}:{cname}:{k}", {**case, "step": t}, f"step {t}: {k} of the shape-{shape} component "
+                                            f"{va.reshape(-1).tolist()} ({va.dtype}) vs the flat component {vb.reshape(-1).tolist()} ({vb.dtype})", vb.tolist(), va.tolist())
+                            break
+                except Exception as ex:
+                    tally.violation(f"exception:shape-generality:{kind}:{cname}:{type(ex).__name__}", case, repr(ex))
+                    break
+                if pair[0] != pair[1]:
+                    tally.mark("nontrivial", ("shape", kind, cname, shape, dtype64, pair))
+    tally.sample({"part": "shape generality", "component": kind, "class": cname})
+    return tally
+
+
 def run(rep):
     quick = rep.tier == "quick"
     T = 3 if quick else 4
@@ -404,6 +469,10 @@ def run(rep):
     for param in ("weight", "bias", "delay"):
         for how in ("ctor", "override"):
             jobs.append((homeostasis_batch_shard, (param, how)))
+    for cname in CLS:
+        jobs.append((shape_shard, ("neuron", cname)))
+    for sname in ("delta", "deltaplus", "exp", "dexp"):
+        jobs.append((shape_shard, ("synapse", sname)))
     tally = run_shards(jobs, seed=rep.seed)
     rep.tally.merge(tally)
     rep.assumptions += [
